@@ -102,6 +102,16 @@ PROPS["C18"] = dict(
     assumptions=["the BIP39 word lists themselves are taken as data from the repository"],
 )
 
+PROPS["C16"] = dict(
+    pkgs=["fractal/protocol"], level="exploration", death_is_violation=True,
+    quick=dict(checks=6000, shards=8, timeout=500),
+    thorough=dict(checks=240000, shards=16, timeout=2400),
+    technique="property-based testing: round trip of generated messages of all six types; totality on arbitrary bytes and structure-aware JSON mutations with recover-inside-property; re-encode fixed point; measured allocation bound at the receive limit",
+    level_text="Generated message values must survive Encode/Decode on every wire field; hostile inputs (random bytes, one structural mutation of a valid encoding, oversized inputs up to 2 MiB) must yield a message or an error, never a panic, and accepted inputs must be well-formed (re-encodable fixed point). Exploration.",
+    level_note="Trusted: mass-core chiapos (BLS element parsing through cgo) is part of the decoded path and is exercised, not modelled; encoding/json.",
+    assumptions=["equality is judged on the fields that travel on the wire (WorkSpaceProof.Ordinal/Error are not transmitted)"],
+)
+
 META = dict(
     na_default="check not built yet in this session (work in progress; see DESIGN.md §4) - not a claim that the technique cannot apply",
     hooks=dict(guard="verif", enable="go test -tags verif (the driver ./check always builds with -tags verif through -overlay/-modfile, see DESIGN.md §2.2)",
